@@ -265,6 +265,118 @@ def sequence_ok(case, r):
     return ["character %d (%r) of the paragraph is enclosed in %r, the formatting of the run it belongs to says %r" % (k, exp[k][0], got[k][1], exp[k][1])]
 
 
+# ---- runs that hold more than one w:t ---------------------------------------------------------------------------------
+# A w:r may hold, next to its text, everything of EG_RunInnerContent: note and comment references (Word puts a footnote
+# reference and its custom mark into ONE run; other producers format the run that holds the reference), tabs, breaks,
+# symbols, special hyphens, rendering marks.  The run's formatting is the run's: it encloses whatever the run writes, and it
+# does not depend on what else the run holds.
+SYM_CHARS = {"22": "\u2200", "F022": "\u2200", "24": "\u2203", "F024": "\u2203"}       # font Symbol: FOR ALL, THERE EXISTS
+HYPHENS = {"w:noBreakHyphen": "\u2011", "w:softHyphen": "\u00ad"}
+
+
+def random_items(rng, notes, n_comments):
+    """0-2 children of a run other than its text: [kind, ...]; notes: {"footnote": n, "endnote": n} notes defined so far"""
+    items = []
+    for _ in range(rng.choice([0, 1, 1, 1, 2])):
+        k = rng.random()
+        if k < 0.4:
+            ty = rng.choice(["footnote", "endnote"])
+            if notes[ty] and rng.random() < 0.2:
+                nid = rng.randrange(notes[ty])          # the same note cited again
+            else:
+                nid = notes[ty]
+                notes[ty] += 1
+            items.append(["note", ty, str(nid + 2), rng.random() < 0.3])
+        elif k < 0.5:
+            items.append(["cref", str(rng.randrange(n_comments))])
+        elif k < 0.64:
+            items.append(["tab"])
+        elif k < 0.74:
+            items.append(["br", rng.choice([None, None, "textWrapping", "page", "column"])])
+        elif k < 0.82:
+            items.append(["sym", rng.choice(sorted(SYM_CHARS))])
+        elif k < 0.9:
+            items.append(["hyphen", rng.choice(sorted(HYPHENS))])
+        else:
+            items.append(["ignored", rng.choice(["w:lastRenderedPageBreak", "w:annotationRef", "w:footnoteRef", "w:endnoteRef"])])
+    return items
+
+
+def item_xml(it):
+    if it[0] == "note":
+        return el("w:%sReference" % it[1], ([("w:customMarkFollows", "1")] if it[3] else []) + [("w:id", it[2])])
+    if it[0] == "cref":
+        return el("w:commentReference", [("w:id", it[1])])
+    if it[0] == "tab":
+        return el("w:tab")
+    if it[0] == "br":
+        return el("w:br", [] if it[1] is None else [("w:type", it[1])])
+    if it[0] == "sym":
+        return el("w:sym", [("w:font", "Symbol"), ("w:char", it[1])])
+    return el(it[1])
+
+
+def item_chars(it):
+    """the characters the child writes into the paragraph outside any link (references write a link, breaks an element)"""
+    if it[0] == "tab":
+        return "\t"
+    return {"sym": SYM_CHARS, "hyphen": HYPHENS}.get(it[0], {}).get(it[1] if len(it) > 1 else None, "")
+
+
+def make_children_case(rng, key, props_list, mapped):
+    """like make_case, but a run holds 0-2 other children before and / or after its letter (now and then no letter at all)"""
+    case = make_case(rng, key, props_list, mapped)
+    runs = case["parts"][0]["xml"][2][0][2][0][2]
+    notes, n_comments = {"footnote": 0, "endnote": 0}, 2
+    extras = []
+    for k, r in enumerate(runs):
+        pre, post = random_items(rng, notes, n_comments), random_items(rng, notes, n_comments)
+        if not pre and not post and rng.random() < 0.5:
+            (pre if rng.random() < 0.5 else post).append(["note", "footnote", str(notes["footnote"] + 2), False])
+            notes["footnote"] += 1
+        letter = rng.random() < 0.9
+        r[2][1:] = [item_xml(i) for i in pre] + ([r[2][1]] if letter else []) + [item_xml(i) for i in post]
+        extras.append([pre, letter, post])
+    for ty in ("footnote", "endnote"):
+        if notes[ty]:
+            body = lambda i: [el("w:p", [], [el("w:r", [], [el("w:t", [], ["n%d" % i])])])]
+            case["parts"].append({"name": "word/%ss.xml" % ty, "xml": el("w:%ss" % ty, [], [el("w:" + ty, [("w:id", str(i + 2))], body(i)) for i in range(notes[ty])])})
+    if any(i[0] == "cref" for pre, _l, post in extras for i in pre + post):
+        case["parts"].append({"name": "word/comments.xml", "xml": el("w:comments", [], [
+            el("w:comment", [("w:id", str(i)), ("w:initials", "q")], [el("w:p", [], [el("w:r", [], [el("w:t", [], ["m%d" % i])])])]) for i in range(n_comments)])})
+        if rng.random() < 0.6:
+            sm = case["options"].get("styleMap")
+            case["options"]["styleMap"] = (sm + "\n" if sm else "") + "comment-reference => sup"
+    del case["props"]
+    case["meta"] = {"props": props_list, "mapped": mapped, "extras": extras}
+    return case
+
+
+def children_ok(case, r):
+    """the paragraph, character by character (characters inside links - note and comment markers - left out): every run
+    writes its children in order, each inside exactly the wrappers the run's own formatting says, whatever else the run holds"""
+    meta = case.get("meta") or case
+    try:
+        nodes = HO.parse(r["value"])
+    except HO.Malformed as e:
+        return ["malformed %s" % e]
+    fmt = lambda chain: [name + "".join((".%s" % v) if k == "class" else "[%s='%s']" % (k, v) for k, v in attrs) for name, attrs in chain if name != "p"]
+    got = [(c, fmt(chain)) for c, chain in HO.char_chains([n for n in nodes if n[0] == "el" and n[1] == "p"], None) if not any(name == "a" for name, _a in chain)]
+    exp = []
+    for k, (props, (pre, letter, post)) in enumerate(zip(meta["props"], meta["extras"])):
+        ch = expected_chain(props, meta["mapped"])
+        if ch is None:
+            continue
+        text = "".join(item_chars(i) for i in pre) + (chr(0x41 + k) if letter else "") + "".join(item_chars(i) for i in post)
+        exp.extend((c, ch) for c in text)
+    if got == exp:
+        return []
+    if [c for c, _ in got] != [c for c, _ in exp]:
+        return ["characters of the paragraph %r are not what the runs hold, in order: %r" % ("".join(c for c, _ in got), "".join(c for c, _ in exp))]
+    k = next(i for i in range(len(exp)) if got[i] != exp[i])
+    return ["character %d (%r) of the paragraph is enclosed in %r, the formatting of the run it belongs to says %r" % (k, exp[k][0], got[k][1], exp[k][1])]
+
+
 def project(r, case):
     return {"value": r["value"]}
 
@@ -326,6 +438,19 @@ def run(out, tier, seed, model_ok):
         ws.append(make_text_case(rng, "c11-ws%d-%d" % (seed, i), plist, mapped, texts))
     run_ws = A.ApiRun(out, "C11", model_ok, project, observers=[sequence_ok], name="wrappers-text")
     run_ws.run(ws, nontrivial=lambda c, r: any(expected_chain(p, c["meta"]["mapped"]) for p in c["meta"]["props"]))
+    # runs that hold other children next to their text (note / comment references, tabs, breaks, symbols, hyphens, rendering marks)
+    kids = []
+    for i in range(common.deepen(700 if tier == "quick" else 10000)):
+        mapped = {k: rng.choice(tags if rng.random() < 0.85 else ["", "", "!"]) for k in ["b", "i", "u", "strike", "all-caps", "small-caps", "highlight"] if rng.random() < 0.3}
+        plist = []
+        for _ in range(rng.choice([1, 2, 2, 3, 4])):
+            q = rng.random()
+            plist.append((dict(plist[-1]) if rng.random() < 0.5 else vary_props(rng, plist[-1])) if plist and q < 0.4 else (plain_props(rng) if q < 0.5 else random_props(rng)))
+        if rng.random() < 0.2:
+            noise_enrich(rng, plist, 0.5)
+        kids.append(make_children_case(rng, "c11-kids%d-%d" % (seed, i), plist, mapped))
+    run_kids = A.ApiRun(out, "C11", model_ok, project, observers=[children_ok], name="wrappers-children")
+    run_kids.run(kids, nontrivial=lambda c, r: any(expected_chain(p, c["meta"]["mapped"]) for p in c["meta"]["props"]))
     out.rule = ("paragraphs of 1-4 adjacent runs: all 2^9 on/off subsets of bold/italic/strike/caps/small-caps/underline/superscript|subscript/highlight (exhaustive, one "
                 "spelling) and random property sets with every toggle spelling (absent, bare, true, 1, false, 0), underline values, highlight none/empty, equal and different "
                 "neighbours, style maps overriding any subset of the seven property mappings; in 40% of the random cases highlight values from the whole value space (the 16 "
@@ -338,6 +463,9 @@ def run(out, tier, seed, model_ok):
                  "look-alike on/off properties (w:bCs, w:iCs, w:dstrike, w:vanish, w:webHidden, w:emboss, w:rtl, w:cs ...) whose value mostly contradicts the w:b / w:i / "
                  "w:strike ... next to them, valued properties (w:szCs, w:color, w:shd ...), a w:rPrChange holding a former w:rPr -- before, after or among the meaningful "
                  "siblings; exhaustively: every toggle x (absent, on, off) x its twin (on, off) x (twin first, twin last)")
+    out.rule += ("; plus paragraphs of 1-4 runs that hold 0-2 other children before and after their letter (footnote / endnote references with and without "
+                 "w:customMarkFollows, repeated, comment references mapped or not, w:tab, w:br of every type, w:sym, special hyphens, rendering marks; now and then no "
+                 "letter at all); observation there = every character the runs write outside links, in order, inside exactly the wrappers of its own run")
     out.extra.update(exhaustive_part=nex)
     out.sample({"props": cs[nex]["props"], "mapped": cs[nex]["mapped"]})
     out.sample({"props": cs[-1]["props"], "mapped": cs[-1]["mapped"]})
@@ -345,6 +473,9 @@ def run(out, tier, seed, model_ok):
 
 def replay(out, payload, model_ok):
     case = payload["case"]
+    if "props" not in case and "extras" in (case.get("meta") or {}):
+        A.replay_case(out, "C11", model_ok, payload, project, [children_ok])
+        return
     if "props" not in case and "texts" in (case.get("meta") or {}):
         A.replay_case(out, "C11", model_ok, payload, project, [sequence_ok])
         return
